@@ -564,16 +564,27 @@ def add_mul_wallace(
 
         c = cn
 
-    labels_a = []
-    labels_b = []
-    shift = 0
-    for i in range(n + m):
-        if c[i][0] != PLACEHOLDER_STR:
-            labels_a.append(c[i][0])
-        if c[i][1] != PLACEHOLDER_STR:
-            labels_b.append(c[i][1])
-        elif len(labels_b) == 0:
-            shift += 1
+    # The two remaining rows are added as numbers. A row may have unused positions
+    # between used ones (narrow operands), those have to stay in place as zero bits.
+    used_a = [i for i in range(n + m) if c[i][0] != PLACEHOLDER_STR]
+    used_b = [i for i in range(n + m) if c[i][1] != PLACEHOLDER_STR]
+    shift = used_b[0] if used_b else n + m
+    has_gaps = (len(used_a) != used_a[-1] + 1) or (
+        len(used_b) > 0 and len(used_b) != used_b[-1] + 1 - shift
+    )
+    zero = (
+        add_gate_from_tt(circuit, input_labels_a[0], input_labels_a[0], '0000')
+        if has_gaps
+        else PLACEHOLDER_STR
+    )
+    labels_a = [
+        c[i][0] if c[i][0] != PLACEHOLDER_STR else zero
+        for i in range(0, used_a[-1] + 1)
+    ]
+    labels_b = [
+        c[i][1] if c[i][1] != PLACEHOLDER_STR else zero
+        for i in range(shift, used_b[-1] + 1 if used_b else shift)
+    ]
 
     return reverse_if_big_endian(
         add_sum_two_numbers_with_shift(circuit, shift, labels_a, labels_b)[: n + m],
